@@ -15,6 +15,7 @@ func init() {
 			k := DefaultKnobs()
 			k.NoFaults, k.PFault, k.PErr, k.PPanic = false, 30, 55, 30
 			k.PFaultKind = 25
+			k.PSide = 8
 			k.PRecover = 65
 			k.WInvoke = 11
 			k.WDecorate = 4
